@@ -205,7 +205,7 @@ def pat_str(p):
     return "[" + ",".join(str(x) for x in p) + "]"
 
 
-NMAP = 4          # translation units for the mapping instantiations
+NMAP = 6          # translation units for the mapping instantiations
 NEXT = 3          # translation units for the extents-only instantiations
 
 
